@@ -26,6 +26,7 @@ def gap(node, why, fn=''):
 RECORDS = {
     'gate': ('gate_st', [('start_samples', 'Z'), ('duration_samples', 'Z'), ('total_samples', 'Z'), ('offset', 'Z')]),
     'fixed': ('fixed_st', [('waveform', 'L'), ('offset', 'Z')]),
+    'xform': ('xform_st', [('offset', 'Z')]),
     'square': ('square_st', [('nid', 'Z'), ('cycle_samples', 'Z'), ('on_samples', 'Z'), ('offset', 'Z')]),
 }
 RAMP = ('zrange (fun j => (2, nid, j)) 0 (2 * i_rise_time)', lambda v: list(v['_ramp'](max(2 * v['i_rise_time'], 0))))
@@ -97,6 +98,34 @@ TARGETS = [
                'sam_envelope = depth / 2.0 * np.cos(2.0 * np.pi * fm * t + eq_phase) + 1.0 - depth / 2.0':
                    ('bind', 'sam_envelope', 'L', SAM),
                'sam_envelope *= 1.0 / eq_power': None}),
+    # ---- repeat() / RepeatFactory.reset / Transform.next / Transform.reset (tie: Stim/ProofsTieRep.v)
+    dict(qual='repeat', coq='gen_repeat', cls=None, elem='sample', ret='L', raises=True,
+         lead=[('s_period', 'Z'), ('s_delay', 'Z')], params=[('waveform', 'L'), ('n', 'Z'), ('skip_n', 'Z')], inputs=[],
+         pins={'s_period = int(round(fs / rate))': ('input', 's_period', 'Z'),
+               's_delay = int(round(fs * delay))': ('input', 's_delay', 'Z'),
+               't_waveform = s_waveform / fs': None, 't_period = s_period / fs': None, 't_delay = s_delay / fs': None,
+               'result = np.zeros((n + skip_n, s_period))':
+                   ('bind', 'result', 'L2', ('np_zeros2 szero (n + skip_n) s_period',
+                                             lambda v: [[0.0] * max(v['s_period'], 0) for _ in range(max(v['n'] + v['skip_n'], 0))])),
+               'result[skip_n:, s_delay:s_delay + s_waveform] = waveform':
+                   ('bind', 'result', 'L2', ('np_set_rows skip_n s_delay (s_delay + s_waveform) waveform result', lambda v: [
+                       r if k < v['skip_n'] else r[:v['s_delay']] + list(v['waveform']) + r[v['s_delay'] + v['s_waveform']:]
+                       for k, r in enumerate(v['result'])]))},
+         pin_exprs={'result.ravel()': ('sym', 'L', 'np_ravel result', lambda v: [x for r in v['result'] for x in r])}),
+    dict(qual='RepeatFactory.reset', coq='gen_repeat_reset', cls='fixed', elem='sample', ret=None, raises=True,
+         lead=[('s_period', 'Z'), ('s_delay', 'Z'), ('n', 'Z'), ('skip_n', 'Z')], params=[], inputs=[('waveform', 'L')],
+         pins={'self.input_factory.reset()': None,
+               'waveform = self.input_factory.get_samples_remaining()': ('input', 'waveform', 'L'),
+               'self.waveform = repeat(waveform, self.fs, self.n, self.skip_n, self.rate, self.delay)':
+                   ('fieldopt', 'waveform', ('gen_repeat s_period s_delay waveform n skip_n',
+                                             lambda v: call(v['_defs'], 'gen_repeat', s_period=v['s_period'], s_delay=v['s_delay'],
+                                                            waveform=v['waveform'], n=v['n'], skip_n=v['skip_n'])))}),
+    dict(qual='Transform.next', coq='gen_transform_next', cls='xform', elem='sample', ret='L', raises=False,
+         params=[('samples', 'Z')], inputs=[('waveform', 'L'), ('transformed', 'L')],
+         pins={'waveform = self.input_factory.next(samples)': ('input', 'waveform', 'L'),
+               'waveform = self.transform(waveform)': ('bind', 'waveform', 'L', ('transformed', lambda v: v['transformed']))}),
+    dict(qual='Transform.reset', coq='gen_transform_reset', cls='xform', elem='sample', ret=None, raises=False,
+         params=[], inputs=[], pins={'self.input_factory.reset()': None}),
 ]
 BIN = {ast.Add: '+', ast.Sub: '-', ast.Mult: '*', ast.FloorDiv: '/', ast.Mod: 'mod'}
 CMP = {ast.Lt: '<?', ast.LtE: '<=?', ast.Gt: '>?', ast.GtE: '>=?', ast.Eq: '=?'}
@@ -145,7 +174,7 @@ class Tr:
                 gap(f, f'parameter {p} missing', self.fn)
         env = dict(self.t['params'])                       # abstract inputs enter the scope where their pinned statement stands
         self.abstract = {**dict(self.t.get('lead', [])), **dict(self.t['inputs'])}
-        end = (lambda e: ('var', 'self')) if self.t['ret'] is None else (lambda e: gap(f, 'falls off the end', self.fn))
+        end = (lambda e: ('some', ('var', 'self')) if self.t['raises'] else ('var', 'self')) if self.t['ret'] is None else (lambda e: gap(f, 'falls off the end', self.fn))
         ir = self.block(f.body, env, end, True)
         missing = set(self.pins) - self.used
         if missing:
@@ -172,6 +201,10 @@ class Tr:
                 if not self.t['raises']:
                     gap(s, 'a call that may raise in a function that may not', self.fn)
                 return ('bind', act[1], ('sym', act[3][0], act[3][1]), nxt({**env, act[1]: act[2]}))
+            if act[0] == 'fieldopt':
+                if not self.t['raises'] or act[1] not in self.fields:
+                    gap(s, 'a field set from a call that may raise', self.fn)
+                return ('bind', 'v_', ('sym', act[2][0], act[2][1]), ('let', ['self'], ('upd', act[1], ('var', 'v_')), nxt(env)))
             if act[0] == 'field':
                 return ('let', ['self'], ('upd', act[1], ('var', act[2])), nxt(env))
             return ('let', [act[1]], ('sym', act[3][0], act[3][1]), nxt({**env, act[1]: act[2]}))
@@ -223,8 +256,10 @@ class Tr:
             if ty != 'B':
                 gap(s.test, 'test is not a comparison of integers', self.fn)
             if isinstance(s.body[-1], ast.Raise):
-                if s.orelse or not self.t['raises'] or any(not is_msg(b) for b in s.body[:-1]):
+                if s.orelse or not self.t['raises'] or any(not is_msg(b) and self.pins.get(ast.unparse(b), 0) is not None
+                                                           for b in s.body[:-1]):
                     gap(s, 'unsupported raise', self.fn)
+                self.used.update(ast.unparse(b) for b in s.body[:-1] if ast.unparse(b) in self.pins)
                 return ('if', c, ('none',), nxt(env))
             def assigned(stmts):
                 out = []
@@ -528,7 +563,14 @@ def ev(ir, v, ctx):
 
 
 # ------------------------------------------------------------------------------------------------------- driver
-HEADER = ('From PV Require Import Common.PySlice Stim.Model.\nOpen Scope Z_scope.\n\n')
+HEADER = ('From PV Require Import Common.PySlice Stim.Model.\nOpen Scope Z_scope.\n\n'
+          '(* 2-D NumPy primitives of repeat(), for in-range non-negative bounds with hi - lo = len v (otherwise NumPy raises):\n'
+          '   np.zeros((r, c)); rows[r0:, lo:hi] = v (v broadcast over the rows); rows.ravel() *)\n'
+          'Definition np_zeros2 {A} (z : A) (r c : Z) : list (list A) := zrepeat (zrepeat z c) r.\n'
+          'Definition np_set_rows {A} (r0 lo hi : Z) (v : list A) (rows : list (list A)) : list (list A) :=\n'
+          '  firstn (Z.to_nat r0) rows\n'
+          '  ++ map (fun row => firstn (Z.to_nat lo) row ++ v ++ skipn (Z.to_nat hi) row) (skipn (Z.to_nat r0) rows).\n'
+          'Definition np_ravel {A} (rows : list (list A)) : list A := concat rows.\n\n')
 
 
 def records():
@@ -664,6 +706,48 @@ def selftest(defs, rng, n=40):
         sam = lambda k: (depth / 2.0 * np.cos(2.0 * np.pi * fm * (k / fs) + ph) + 1.0 - depth / 2.0) * (1.0 / pw)
         got = call(defs, 'gen_sam_envelope', nid=0, D=int(delay * fs), offset=o, samples=c, _sam=sam)
         same(f'_sam_envelope(offset {o}, samples {c}, D {D})', got, raw(stim._sam_envelope)(o, c, fs, depth, fm, delay, ph, pw), 1e-12)
+    class Halve(stim.Transform):                     # a transform that changes the length: offset advances by len(output)
+        def __init__(self, inner):
+            self.input_factory = inner
+            self.reset()
+
+        def transform(self, w):
+            return 2.0 * w[:(len(w) + 1) // 2]
+    for _ in range(n):
+        period, sdelay, L = rng.randint(1, 9), rng.randint(0, 4), rng.randint(0, 8)
+        nn, skip = rng.randint(0, 3), rng.randint(0, 2)
+        arr, rate, delay = 1000.0 + np.arange(L), fs / period, sdelay / fs
+        sp, sd = int(round(fs / rate)), int(round(fs * delay))
+        got = call(defs, 'gen_repeat', s_period=sp, s_delay=sd, waveform=list(arr), n=nn, skip_n=skip)
+        try:
+            want = stim.repeat(arr, fs, nn, skip, rate, delay)
+        except ValueError:
+            want = None
+        if (got is None) != (want is None):
+            raise Gap(f'self-test: repeat(len {L}, n {nn}, skip {skip}, period {sp}, delay {sd}): raises in one of translation / real code only')
+        if got is not None:
+            same(f'repeat(len {L}, n {nn}, skip {skip}, period {sp}, delay {sd})', got[1], want)
+        got = call(defs, 'gen_repeat_reset', s_period=sp, s_delay=sd, n=nn, skip_n=skip, self={'waveform': [], 'offset': 5},
+                   waveform=list(arr), _defs=defs)
+        try:
+            obj = stim.RepeatFactory(fs, nn, skip, rate, delay, stim.FixedWaveform(fs, arr))
+        except ValueError:
+            obj = None
+        if (got is None) != (obj is None):
+            raise Gap('self-test: RepeatFactory.reset: raises in one of translation / real code only')
+        if got is not None:
+            same('RepeatFactory.reset waveform', got[1]['waveform'], obj.waveform)
+            same('RepeatFactory.reset offset', got[1]['offset'], obj.offset)
+        obj, inner, st = Halve(Inner()), Inner(), {'offset': 0}
+        for _ in range(3):
+            c = rng.randint(0, 9)
+            tok = inner.next(c)
+            st2, out = call(defs, 'gen_transform_next', self=st, samples=c, waveform=list(tok), transformed=list(obj.transform(tok)))
+            same(f'Transform.next({c})', out, obj.next(c))
+            same('Transform.offset', st2['offset'], obj.offset)
+            st = st2
+        obj.reset()
+        same('Transform.reset', call(defs, 'gen_transform_reset', self=st)['offset'], obj.offset)
     return count
 
 
